@@ -126,7 +126,7 @@ func aggSource(v ssa.Value) ssa.Value {
 // cellAlloc: the local variable an address denotes — the Alloc itself or the Alloc a captured
 // variable is bound to at its single creation site.
 func cellAlloc(addr ssa.Value) *ssa.Alloc {
-	for i := 0; i < 3; i++ {
+	for i := 0; i < 8; i++ {
 		switch a := addr.(type) {
 		case *ssa.Alloc:
 			return a
@@ -146,6 +146,16 @@ func cellAlloc(addr ssa.Value) *ssa.Alloc {
 			} else {
 				return nil
 			}
+		case *ssa.UnOp:
+			// a pointer kept in a single-assignment variable (a parameter captured by a closure)
+			if a.Op != token.MUL {
+				return nil
+			}
+			n := norm1(a)
+			if n == nil {
+				return nil
+			}
+			addr = n
 		default:
 			return nil
 		}
@@ -207,6 +217,33 @@ func structFieldValue(addr ssa.Value, field int) ssa.Value {
 			case *ssa.Store:
 				if x.Addr == a {
 					whole = append(whole, x.Val) // whole-struct assignment
+				} else if cell, isCell := x.Addr.(*ssa.Alloc); isCell && depth <= 3 {
+					// the pointer is kept in a variable of its own (a parameter captured by a
+					// closure): every value loaded from that variable is the pointer again
+					var loads func(c ssa.Value, d int)
+					loads = func(c ssa.Value, d int) {
+						for _, r2 := range *c.Referrers() {
+							switch y := r2.(type) {
+							case *ssa.Store:
+								if y.Addr != c || y.Val != a {
+									ok = false
+								}
+							case *ssa.UnOp:
+								scan(y, depth+1)
+							case *ssa.MakeClosure:
+								cf := y.Fn.(*ssa.Function)
+								for i, b := range y.Bindings {
+									if b == c && i < len(cf.FreeVars) && d < 2 {
+										loads(cf.FreeVars[i], d+1)
+									}
+								}
+							case *ssa.DebugRef:
+							default:
+								ok = false
+							}
+						}
+					}
+					loads(cell, 0)
 				} else {
 					ok = false // address stored somewhere
 				}
@@ -229,7 +266,7 @@ func structFieldValue(addr ssa.Value, field int) ssa.Value {
 					}
 				}
 			case *ssa.MakeClosure:
-				if depth > 1 {
+				if depth > 3 {
 					ok = false
 					continue
 				}
@@ -246,6 +283,20 @@ func structFieldValue(addr ssa.Value, field int) ssa.Value {
 				for i, b := range x.Bindings {
 					if b == a && i < len(cf.FreeVars) {
 						scan(cf.FreeVars[i], depth+1)
+					}
+				}
+			case *ssa.Call:
+				// handed to a library function as receiver or argument: what that function does
+				// with its parameter
+				sc := x.Call.StaticCallee()
+				if sc == nil || x.Call.IsInvoke() || depth > 3 || curProg == nil || !curProg.InLib(sc) || originOf(sc).Blocks == nil {
+					ok = false
+					continue
+				}
+				o := originOf(sc)
+				for i, arg := range x.Call.Args {
+					if arg == a && i < len(o.Params) {
+						scan(o.Params[i], depth+1)
 					}
 				}
 			case *ssa.UnOp, *ssa.DebugRef:
@@ -347,6 +398,10 @@ func asFunc(v ssa.Value) *ssa.Function {
 		}
 		return f
 	case *ssa.Function:
+		// a method expression (sortIndexItem.less) is a synthetic thunk around the method
+		if m := boundTarget(x); m != nil {
+			return m
+		}
 		return x
 	}
 	return nil
@@ -355,7 +410,7 @@ func asFunc(v ssa.Value) *ssa.Function {
 // boundTarget: for the synthetic wrapper of a method value (`txn.markDirty` handed over where a
 // function literal could stand) the library method it forwards to; nil otherwise.
 func boundTarget(f *ssa.Function) *ssa.Function {
-	if f == nil || f.Synthetic == "" || !strings.HasSuffix(f.Name(), "$bound") || f.Prog == nil {
+	if f == nil || f.Synthetic == "" || !(strings.HasSuffix(f.Name(), "$bound") || strings.HasSuffix(f.Name(), "$thunk")) || f.Prog == nil {
 		return nil
 	}
 	obj, ok := f.Object().(*types.Func)
